@@ -82,21 +82,92 @@ def box_hook(rn, ev, call, name, recv, args, kwargs):
     return NotImplemented
 
 
+class CurveB(StandIn):
+    """exact planar segment: control points, evaluation by de Casteljau, and its control box"""
+
+    def __init__(self, pts):
+        self.ctrlpoints = tuple(pts)
+        self.degree, self.npts = len(pts) - 1, len(pts)
+
+    def at(self, t):
+        cur = [(Fr(p.x), Fr(p.y)) for p in self.ctrlpoints]
+        while len(cur) > 1:
+            cur = [((1 - t) * a[0] + t * b[0], (1 - t) * a[1] + t * b[1]) for a, b in zip(cur, cur[1:])]
+        return PV(cur[0][0], cur[0][1])
+
+    def eval(self, nodes):
+        try:
+            return tuple(self.at(Fr(t)) for t in nodes)
+        except TypeError:
+            return self.at(Fr(nodes))
+
+    __call__ = eval
+
+    def box(self):
+        xs, ys = [p.x for p in self.ctrlpoints], [p.y for p in self.ctrlpoints]
+        return BoxS(PV(min(xs), min(ys)), PV(max(xs), max(ys)))
+
+    def samples(self, n=64):
+        return [self.at(Fr(k, n)) for k in range(n + 1)]
+
+
+class JordanB(StandIn):
+    """closed chain of exact segments with the sampling interface of a JordanCurve"""
+
+    def __init__(self, segments):
+        self.segments = tuple(segments)
+
+    @property
+    def vertices(self):
+        out = []
+        for sg in self.segments:
+            for p in sg.ctrlpoints:
+                if not any(p is q for q in out):
+                    out.append(p)
+        return tuple(out)
+
+    def points(self, subnpts=None):
+        k = int(subnpts or 0)
+        return tuple(sg.at(Fr(j, k + 1)) for sg in self.segments for j in range(k + 1))
+
+
+def _encloses(box, pts):
+    return isinstance(box, BoxS) and all(box.lowpt.x <= p.x <= box.toppt.x and box.lowpt.y <= p.y <= box.toppt.y for p in pts)
+
+
 def r17_3(ctx):
-    out = Outcome("R17.3", "bounding boxes enclose: PlanarCurve.box = componentwise min / max over all control points; "
-                           "curve / shape boxes join every part; Box.__or__ = (min, min) .. (max, max); None | box = box",
-                  floor=5)
+    out = Outcome("R17.3", "bounding boxes enclose: the box of a segment / of a closed curve contains every point of it "
+                           "(interior extrema of curved pieces included); curve / shape boxes join every part; Box.__or__ "
+                           "= (min, min) .. (max, max); None | box = box", floor=5)
     fn = ctx.fn("curve.PlanarCurve.box")
-    pts = (PV(1, 5), PV(-3, 9), PV(7, -2), PV(4, 4))       # extremes at interior control points
-    C = Obj("C", ctrlpoints=pts)
+    # a cubic whose extremes are at interior control points, and a quadratic whose right-most point is reached at a
+    # parameter that is none of 0, 1/2, 1
+    for label, pts in (("cubic", (PV(1, 5), PV(-3, 9), PV(7, -2), PV(4, 4))), ("quadratic", (PV(4, 0), PV(6, 2), PV(0, 3))),
+                       ("tall quadratic", (PV(0, 0), PV(1, 10), PV(2, 0))), ("wide quadratic", (PV(0, 0), PV(-10, 1), PV(0, 2))),
+                       ("low quadratic", (PV(0, 0), PV(1, -10), PV(2, 0))), ("far quadratic", (PV(0, 0), PV(10, 1), PV(0, 2)))):
+        C = CurveB(pts)
+        try:
+            got = Runner(ctx, {"curve.Math.closed_linspace", "curve.Math.open_linspace"}, box_hook).call_fn(fn, [C])
+            ok = _encloses(got, C.samples())
+            (out.ok if ok else out.bad)(fn.qname, f"the box encloses every point of a {label} segment" if ok else
+                                        "the box of a segment does not enclose the segment", where=fn.where(),
+                                        detail="" if ok else f"{label} {pts}: box {getattr(got, 'lowpt', got)}..{getattr(got, 'toppt', '')} "
+                                                             f"misses points of the curve")
+        except (Undecided, Raised) as ex:
+            out.undecided(fn.qname, str(ex), where=fn.where())
+    # a closed curve with a bulging arc: the box must contain the bulge, not only the vertices
+    a, b, c = PV(0, 0), PV(4, 0), PV(0, 3)
+    J = JordanB((CurveB((a, PV(3, -4), b)), CurveB((b, c)), CurveB((c, PV(-5, 1), a))))
+    fj = ctx.fn("jordancurve.JordanCurve.box")
     try:
-        got = Runner(ctx, set(), box_hook).call_fn(fn, [C])
-        ok = isinstance(got, BoxS) and (got.lowpt.x, got.lowpt.y, got.toppt.x, got.toppt.y) == (-3, -2, 7, 9)
-        (out.ok if ok else out.bad)(fn.qname, "box = (min x, min y) .. (max x, max y) over all control points" if ok else
-                                    "the box does not enclose every control point", where=fn.where(),
-                                    detail="" if ok else f"control points {pts} give {getattr(got, 'lowpt', got)}..{getattr(got, 'toppt', '')}")
+        got = Runner(ctx, {"curve.Math.closed_linspace", "curve.Math.open_linspace"}, box_hook).call_fn(fj, [J])
+        ok = _encloses(got, [p for sg in J.segments for p in sg.samples()])
+        (out.ok if ok else out.bad)(fj.qname, "the box encloses every point of every segment (bulging arcs included)" if ok else
+                                    "the box of a closed curve does not enclose its curved pieces", where=fj.where(),
+                                    detail="" if ok else f"box {getattr(got, 'lowpt', got)}..{getattr(got, 'toppt', '')} for arcs "
+                                                         f"bulging to y = -2 and x = -2.5")
     except (Undecided, Raised) as ex:
-        out.undecided(fn.qname, str(ex), where=fn.where())
+        out.undecided(fj.qname, str(ex), where=fj.where())
     parts = [HasBox(BoxS(PV(0, 0), PV(1, 1))), HasBox(BoxS(PV(-5, 2), PV(0, 3))), HasBox(BoxS(PV(2, -7), PV(9, 0)))]
     for q, attr in (("jordancurve.JordanCurve.box", "segments"), ("shape.DefinedShape.box", "jordans")):
         f2 = ctx.fn(q)
@@ -107,6 +178,8 @@ def r17_3(ctx):
             (out.ok if ok else out.bad)(q, f"join of the boxes of every element of self.{attr}" if ok else
                                         f"the box is not the join over every element of self.{attr}", where=f2.where())
         except (Undecided, Raised) as ex:
+            if q.endswith("JordanCurve.box"):
+                continue                    # decided on the sampled world above
             out.undecided(q, str(ex), where=f2.where())
     fo = ctx.fn("polygon.Box.__or__")
     A = Obj("A", lowpt=PV(0, 5), toppt=PV(4, 9))
